@@ -32,6 +32,10 @@ type meta struct {
 	creation bool
 }
 
+// lightBlobs (race build): allocations of 64 KiB and more (blobs, huge calldata) cost ~70x under the
+// race detector (shadow memory of large allocations); the race variant is about the shared caches, not about blob sizes.
+var lightBlobs bool
+
 type gen struct {
 	rng *rand.Rand
 	m   *meta
@@ -112,6 +116,9 @@ func (g *gen) data() []byte {
 		n = g.rng.Intn(400)
 	default:
 		n = []int{65535, 65536, 70000}[g.rng.Intn(3)]
+		if lightBlobs {
+			n = 300
+		}
 	}
 	g.m.dataLen = n
 	if n == 0 && g.rng.Intn(2) == 0 {
@@ -290,6 +297,9 @@ func (g *gen) sidecar() *types.BlobTxSidecar {
 		nb = 2
 	default:
 		nb = 6
+	}
+	if lightBlobs {
+		nb = 0
 	}
 	g.m.nblobs = nb
 	g.m.sidecar = "v0"
